@@ -393,6 +393,7 @@ func (e *Engine) Explore(h Harness, cfg Config, opt ExploreOpts) (*ExploreStats,
 	work := [][]TrailEnt{nil}
 	active := 0
 	stop := false
+	pathSeq, sampleStride := 0, 1
 	nw := opt.Workers
 	if nw <= 0 {
 		nw = 1
@@ -435,8 +436,12 @@ func (e *Engine) Explore(h Harness, cfg Config, opt ExploreOpts) (*ExploreStats,
 						nViolSamples++
 					}
 				}
-				// a model for the path's inputs is only computed while samples are still wanted
-				wantSample := len(st.Samples)-nViolSamples < opt.Samples || (nViolSamples < 2 && len(st.Viols) > 0 && len(st.Viols) < 50)
+				// a model for the path's inputs is only computed for paths that may become samples:
+				// every sampleStride-th started path (the stride doubles whenever the sample set is
+				// full and is thinned), so that the samples are spread over the whole exploration
+				// instead of being its first few paths
+				pathSeq++
+				wantSample := opt.Samples > 0 && pathSeq%sampleStride == 0 || (nViolSamples < 2 && len(st.Viols) > 0 && len(st.Viols) < 50)
 				mu.Unlock()
 
 				res := w.runPath(h, fn, cfg, prefix, wantSample)
@@ -479,8 +484,24 @@ func (e *Engine) Explore(h Harness, cfg Config, opt ExploreOpts) (*ExploreStats,
 							nv++
 						}
 					}
-					if res.Sample.HadViolation && nv < 2 || !res.Sample.HadViolation && len(st.Samples)-nv < opt.Samples {
+					if res.Sample.HadViolation && nv < 2 || !res.Sample.HadViolation && opt.Samples > 0 {
 						st.Samples = append(st.Samples, *res.Sample)
+					}
+					if len(st.Samples)-nv > opt.Samples && opt.Samples > 0 {
+						// thin: keep every other passing sample, double the stride
+						kept, k := st.Samples[:0], 0
+						for _, x := range st.Samples {
+							if x.HadViolation {
+								kept = append(kept, x)
+								continue
+							}
+							if k%2 == 0 {
+								kept = append(kept, x)
+							}
+							k++
+						}
+						st.Samples = kept
+						sampleStride *= 2
 					}
 				}
 				work = append(work, res.Alts...)
